@@ -1,4 +1,5 @@
 import JugModel.Lemmas.ExecOnce
+import JugModel.Lemmas.ExecScan
 /-!
 # C01 - distributed execution computes what plain sequential Python would compute
 
@@ -109,6 +110,57 @@ theorem started_tasks_have_reference_value (P : Prog V) (wf : WF P) (fl : Worker
   | none => exact absurd hres hne
   | some v => rw [hs t v hres]
 
+/-! ### completeness, in full
+
+The worker's scanning order stays abstract; what is needed from it is the *obligation* `scanRun` (Model/ExecScan.lean):
+a worker leaves with status 0 only after it has accounted for every task - seen its result, found it locked by another
+worker, or (since it last finished a task) seen one of its dependencies without a result. The real loop is tied to this
+obligation twice: every extracted path of `execution_loop` satisfies it (`WorkerBridge.worker_scans_all`, by the kernel),
+and the driver evaluates `scanRun` on every real multi-worker history it validates. -/
+
+/-- **completeness**: in a failure-, stop- and crash-free history of any number `W ≥ 1` of workers, any interleaving, if every
+    worker kept its scan obligation and all of them have left with status 0, every task has a result ... -/
+theorem exec_complete (P : Prog V) (fl : Worker → Flags) (res₀ : Task → Option V) (n W : Nat) (hW : 0 < W)
+    (sdeps : Task → List Task) (hlt : ∀ t d, d ∈ sdeps t → d < t) (s : Sys V) (evs : List (Ev V))
+    (hr : CleanSteps P fl (initSys res₀) evs s)
+    (hw : ∀ e ∈ evs, ∀ w, evWorker e = some w → w < W)
+    (hscan : scanRun n sdeps Scan.init evs = true)
+    (hq : ∀ w, w < W → s.wk w = .exited 0) :
+    ∀ t, t < n → s.res t ≠ none := by
+  obtain ⟨sc, hc⟩ := cleanSteps_cinv P fl n W sdeps evs _ s Scan.init (cinv_init n W hW sdeps res₀) hr hw hscan
+  exact complete_of_cinv n W sdeps hlt s sc hc hq
+
+theorem cleanSteps_steps (P : Prog V) (fl : Worker → Flags) : ∀ (evs : List (Ev V)) (s₀ s : Sys V),
+    CleanSteps P fl s₀ evs s → Steps P fl s₀ evs s := by
+  intro evs
+  induction evs with
+  | nil => intro s₀ s h; simpa [CleanSteps, Steps] using h
+  | cons e es ih =>
+    intro s₀ s h
+    simp only [CleanSteps] at h
+    obtain ⟨hc, s1, ha, hr'⟩ := h
+    exact ⟨legal_of_clean s₀ e hc, s1, ha, ih s1 s hr'⟩
+
+/-- ... **and it is the value of sequential evaluation** (C01 for the execution protocol: soundness + completeness) -/
+theorem exec_complete_reference (P : Prog V) (wf : WF P) (fl : Worker → Flags) (res₀ : Task → Option V)
+    (h₀ : ∀ t v, res₀ t = some v → v = denot P t) (W : Nat) (hW : 0 < W)
+    (sdeps : Task → List Task) (hlt : ∀ t d, d ∈ sdeps t → d < t) (s : Sys V) (evs : List (Ev V))
+    (hr : CleanSteps P fl (initSys res₀) evs s)
+    (hw : ∀ e ∈ evs, ∀ w, evWorker e = some w → w < W)
+    (hscan : scanRun P.n sdeps Scan.init evs = true)
+    (hq : ∀ w, w < W → s.wk w = .exited 0) :
+    ∀ t, t < P.n → s.res t = some (denot P t) := by
+  intro t ht
+  have hne := exec_complete P fl res₀ P.n W hW sdeps hlt s evs hr hw hscan hq t ht
+  have hs := exec_sound P wf fl res₀ h₀ evs s (cleanSteps_steps P fl evs _ s hr)
+  cases hres : s.res t with
+  | none => exact absurd hres hne
+  | some v => rw [hs t v hres]
+
+/-- the obligation is needed: without it a worker may simply leave, and the history is accepted with nothing computed -/
+example : ∃ s, run (V := Nat) { n := 1, deps := fun _ => [], f := fun _ _ => 0 } (fun _ => ⟨false, false⟩) (initSys (fun _ => none)) [.exit 0 0] = some s
+    ∧ s.wk 0 = .exited 0 ∧ s.res 0 = none ∧ scanRun (V := Nat) 1 (fun _ => []) Scan.init [.exit 0 0] = false := ⟨_, rfl, by decide⟩
+
 /-! non-vacuity: a diamond-free chain executed by two workers ends with the reference values -/
 section Example
 def exP : Prog Nat := { n := 2, deps := fun t => if t = 1 then [0] else [], f := fun t env => if t = 1 then (env 0).getD 0 + 1 else 5 }
@@ -118,6 +170,11 @@ def exHist : List (Ev Nat) :=
    .canLoad 1 0 true, .canLoad 1 1 false, .lock 1 1 true, .canLoad 1 1 false, .load 1 0 5, .begin_ 1 1, .endOk 1 1 6, .dump 1 1 6, .unlock 1 1]
 example : ∃ s, run exP exFl (initSys (fun _ => none)) exHist = some s ∧ s.res 1 = some 6 := ⟨_, rfl, by decide⟩
 example : denot exP 1 = 6 := by decide
+/-- the same history completed by the workers' final scans and exits meets every hypothesis of `exec_complete` -/
+def exHist2 : List (Ev Nat) := exHist ++ [.canLoad 0 1 true, .exit 0 0, .canLoad 1 0 true, .exit 1 0]
+example : ∃ s, run exP exFl (initSys (fun _ => none)) exHist2 = some s ∧ s.wk 0 = .exited 0 ∧ s.wk 1 = .exited 0 ∧ s.res 0 = some 5 :=
+  ⟨_, rfl, by decide⟩
+example : scanRun 2 exP.deps Scan.init exHist2 = true := by decide
 end Example
 
 end Jug.C01
